@@ -264,6 +264,16 @@ func TestVerifC18Batch(t *testing.T) {
 				}
 			}()
 			buf := mb.marshal()
+			// bounds-checked reference decoder first (layout as documented in serialization.go): a malformed
+			// value must not reach the unchecked decoder, which would allocate from garbage lengths
+			ref, err := vC18SafeDecode(buf)
+			if err != nil {
+				report("messageBatch.marshal writes a malformed value", fmt.Sprintf("batch %s: %v (%d bytes)", vC18ShowBatch(mb), err, len(buf)), mb)
+				return
+			}
+			if f, d := vC18CompareMsgs(ref.Messages, mb.Messages); f != "" || ref.NextID != mb.NextID {
+				report("value written by messageBatch.marshal does not hold the batch ("+f+")", fmt.Sprintf("batch %s: %s; the bytes hold %s", vC18ShowBatch(mb), d, vC18ShowBatch(ref)), mb)
+			}
 			back := unmarshalMessageBatch(buf)
 			if back.NextID != mb.NextID {
 				report("output batch codec changes NextID", fmt.Sprintf("batch %s: decoded NextID %d", vC18ShowBatch(mb), back.NextID), mb)
@@ -303,8 +313,21 @@ func TestVerifC18Batch(t *testing.T) {
 			if err := o.Add(msgs); err != nil {
 				t.Fatal(err)
 			}
-			for pass, name := range []string{"Get (from LevelDB)", "Get (cached)"} {
-				_ = pass
+			var key [8]byte
+			for _, kid := range []uint64{id, 0} {
+				binary.BigEndian.PutUint64(key[:], kid)
+				raw, err := o.db.Get(key[:], nil)
+				if err == nil {
+					_, err = vC18SafeDecode(raw)
+				}
+				if err != nil {
+					report("output stream stores a malformed value", fmt.Sprintf("after Add of %s the value under key %d: %v", vC18ShowBatch(mb), kid, err), mb)
+					o.Close()
+					openStream()
+					return
+				}
+			}
+			for _, name := range []string{"Get (from LevelDB)", "Get (cached)"} {
 				got, ok := o.Get(robust.Id{Id: id})
 				if !ok {
 					report("output stream does not return a stored batch", fmt.Sprintf("batch %s: %s found nothing", vC18ShowBatch(mb), name), mb)
@@ -315,7 +338,6 @@ func TestVerifC18Batch(t *testing.T) {
 				}
 			}
 			// the raw stored value, decoded
-			var key [8]byte
 			binary.BigEndian.PutUint64(key[:], id)
 			raw, err := o.db.Get(key[:], nil)
 			if err != nil {
@@ -367,3 +389,65 @@ var vC18StreamReuse = func() int {
 	}
 	return 100
 }()
+
+// vC18SafeDecode parses a marshalled batch with bounds checks, following the layout documented in
+// serialization.go: NextID, #messages, per message Id, Reply, len(Data), Data, #recipients, recipients
+// (all integers little-endian uint64).
+func vC18SafeDecode(b []byte) (*messageBatch, error) {
+	n := 0
+	u64 := func() (uint64, error) {
+		if len(b)-n < 8 {
+			return 0, fmt.Errorf("truncated at offset %d", n)
+		}
+		v := binary.LittleEndian.Uint64(b[n:])
+		n += 8
+		return v, nil
+	}
+	var mb messageBatch
+	var err error
+	if mb.NextID, err = u64(); err != nil {
+		return nil, err
+	}
+	cnt, err := u64()
+	if err != nil {
+		return nil, err
+	}
+	if cnt > uint64(len(b))/32 {
+		return nil, fmt.Errorf("message count %d does not fit into %d bytes", cnt, len(b))
+	}
+	for i := uint64(0); i < cnt; i++ {
+		var m Message
+		if m.Id.Id, err = u64(); err != nil {
+			return nil, err
+		}
+		if m.Id.Reply, err = u64(); err != nil {
+			return nil, err
+		}
+		l, err := u64()
+		if err != nil {
+			return nil, err
+		}
+		if l > uint64(len(b)-n) {
+			return nil, fmt.Errorf("message %d: text length %d exceeds the remaining %d bytes", i, l, len(b)-n)
+		}
+		m.Data = string(b[n : n+int(l)])
+		n += int(l)
+		r, err := u64()
+		if err != nil {
+			return nil, err
+		}
+		if r > uint64(len(b)-n)/8 {
+			return nil, fmt.Errorf("message %d: %d recipients do not fit into the remaining %d bytes", i, r, len(b)-n)
+		}
+		m.InterestingFor = make(map[uint64]bool, r)
+		for j := uint64(0); j < r; j++ {
+			v, _ := u64()
+			m.InterestingFor[v] = true
+		}
+		mb.Messages = append(mb.Messages, m)
+	}
+	if n != len(b) {
+		return nil, fmt.Errorf("%d trailing bytes", len(b)-n)
+	}
+	return &mb, nil
+}
